@@ -367,7 +367,7 @@ def runPhase (P : WParams) (c : Client) (t : Nat) (k : Nat) (op : Op) (ph : Nat)
   | .setver v val =>
     let gv := getVar c v
     (setVar c v { gv with nver := val }, [s!"R{k}=0"], .doneOp)
-  | .xver v => (c, [s!"R{k}={hex32 (getVar c v).ver}"], .doneOp)
+  | .xver v => (c, [s!"R{k}={hex32 (getVar c v).ver}/{hex32 (getVar c v).ver}"], .doneOp)
   | .gver v => (c, [s!"R{k}={hex32 (getVar c v).ver}"], .doneOp)
   | .payrd lk =>
     match ph with
